@@ -724,6 +724,71 @@ var (
 	IsPathSeparator = os.IsPathSeparator
 )
 
+// Truncate shadows os.Truncate (by path).
+//
+//go:norace
+func Truncate(name string, size int64) error {
+	s := Cur
+	rel, inside := "", false
+	if s != nil {
+		rel, inside = s.rel(name)
+	}
+	if !inside {
+		return os.Truncate(name, size)
+	}
+	vrt.Point(vrt.PIO, uint32(KTruncate))
+	s.harvest()
+	if err := s.fault(KTruncate, rel); err != nil {
+		return &os.PathError{Op: "truncate", Path: name, Err: err}
+	}
+	ino, _ := s.inoOf(rel, name)
+	if err := os.Truncate(name, size); err != nil {
+		return err
+	}
+	s.add(Entry{Kind: KTruncate, Ino: ino, Path: rel, Off: size})
+	return nil
+}
+
+// further pass-through identifiers of package os (so that a plausible edit of the engine still compiles against
+// the shadow package; none of them mutates the simulated tree)
+const (
+	SEEK_SET = os.SEEK_SET
+	SEEK_CUR = os.SEEK_CUR
+	SEEK_END = os.SEEK_END
+
+	ModeAppend    = os.ModeAppend
+	ModeExclusive = os.ModeExclusive
+	ModeTemporary = os.ModeTemporary
+	ModeSymlink   = os.ModeSymlink
+	ModeType      = os.ModeType
+	DevNull       = os.DevNull
+)
+
+var (
+	Chmod      = os.Chmod
+	Chtimes    = os.Chtimes
+	Readlink   = os.Readlink
+	Getuid     = os.Getuid
+	Geteuid    = os.Geteuid
+	Getgid     = os.Getgid
+	Getppid    = os.Getppid
+	CreateTemp = os.CreateTemp
+	DirFS      = os.DirFS
+	Unsetenv   = os.Unsetenv
+	NewFile    = os.NewFile
+	Interrupt  = os.Interrupt
+	Kill       = os.Kill
+
+	ErrDeadlineExceeded = os.ErrDeadlineExceeded
+	ErrNoDeadline       = os.ErrNoDeadline
+)
+
+type (
+	Signal       = os.Signal
+	LinkError    = os.LinkError
+	SyscallError = os.SyscallError
+)
+
 var errInjected = errors.New("injected I/O error")
 
 // ErrInjected is the error returned by injected faults.
